@@ -80,6 +80,7 @@ type Thread struct {
 	cfifo *fifo
 	cside int
 	cctx  context.Context
+	cdone <-chan struct{} // ctx.Done(), taken by the thread that owns ctx
 	// for the canceller policy
 	isCanceller bool
 	started     bool
@@ -175,7 +176,7 @@ func (s *Sched) enabled(t *Thread) bool {
 		return len(p.buf) > 0 || p.wclosed || p.rclosed || p.deadline
 	case cPipeReadOrCancel:
 		p := t.cpipe
-		return len(p.buf) > 0 || p.wclosed || p.rclosed || p.deadline || s.cancelled
+		return len(p.buf) > 0 || p.wclosed || p.rclosed || p.deadline || chanClosed(t.cdone)
 	case cPipeWrite:
 		p := t.cpipe
 		return len(p.buf) < p.cap || p.rclosed || p.wclosed
@@ -195,9 +196,10 @@ func (s *Sched) enabled(t *Thread) bool {
 		}
 		return f.ropen > 0
 	case cCtxDone:
-		// asking the thread's own context would read memory that thread
-		// wrote; the harness tells the scheduler when it cancels instead
-		return s.cancelled
+		// Asking the context itself (ctx.Err()) from another thread would read
+		// memory the owning thread wrote; its Done channel was taken by the
+		// owner and is only polled here.
+		return chanClosed(t.cdone)
 	case cAfterFunc:
 		return t.started
 	case cNever:
@@ -573,10 +575,28 @@ func (s *Sched) spawnAfter() *Thread {
 func (s *Sched) armAfter(t *Thread, ctx context.Context) {
 	t.ckind = cCtxDone
 	t.cctx = ctx
+	t.cdone = ctx.Done()
 }
 
 //go:norace
 func (s *Sched) removeThread(t *Thread) { t.state = stRemoved }
+
+// chanClosed polls a Done channel without blocking. The race runtime's
+// acquire on receiving from a closed channel is switched off around the poll:
+// whoever evaluates a condition must not inherit the canceller's history.
+func chanClosed(ch <-chan struct{}) bool {
+	if ch == nil {
+		return false
+	}
+	raceDisable()
+	defer raceEnable()
+	select {
+	case <-ch:
+		return true
+	default:
+		return false
+	}
+}
 
 // NoteCancel tells the scheduler that the (single) root context of this
 // execution was cancelled; threads waiting for it become enabled.
@@ -604,9 +624,11 @@ func (s *Sched) blockCtx(ctx context.Context) {
 	me := s.me()
 	me.ckind = cCtxDone
 	me.cctx = ctx
+	me.cdone = ctx.Done()
 	s.yield(me, "sleep")
 	me.ckind = cNone
 	me.cctx = nil
+	me.cdone = nil
 }
 
 // ---- modelled pipes ----
@@ -771,14 +793,26 @@ func (w *PipeWriter) Close() error {
 // blocking or the execution's context is cancelled, and reports which (true =
 // readable). The harness' stand-ins for external commands use it so that they
 // die with the context like a child process killed by DefaultExecHandler.
-func WaitReadable(r io.Reader) bool {
+func WaitReadable(ctx context.Context, r io.Reader) bool {
 	s := active
 	pr, ok := r.(*PipeReader)
 	if s == nil || !ok {
 		return true
 	}
-	s.blockPipe(cPipeReadOrCancel, pr.p, "cat-read")
+	s.blockPipeCtx(pr.p, ctx.Done())
 	return pr.p.readable()
+}
+
+//go:norace
+func (s *Sched) blockPipeCtx(p *pipe, done <-chan struct{}) {
+	me := s.me()
+	me.ckind = cPipeReadOrCancel
+	me.cpipe = p
+	me.cdone = done
+	s.yield(me, "cat-read")
+	me.ckind = cNone
+	me.cpipe = nil
+	me.cdone = nil
 }
 
 //go:norace
